@@ -344,7 +344,13 @@ func checkC14(p *core.Program, r *core.Report) {
 	}
 
 	// Run: combines all server jobs
-	if runU, ok := ix.decls[runFn]; ok {
+	runBody := runFn
+	if rf := serverRunFn(p); rf != nil {
+		if o, ok := rf.Object().(*types.Func); ok {
+			runBody = o
+		}
+	}
+	if runU, ok := ix.decls[runBody]; ok {
 		r.AnalysedFn(runU.Name)
 		checkRunCombines(p, r, runU, serverJobFns, jobT)
 	}
@@ -609,6 +615,31 @@ func checkServerClosures(p *core.Program, r *core.Report, u flow.FuncUnit, start
 				if fn, ok := typeutil.Callee(info, c).(*types.Func); ok && (fn.FullName() == "context.Background" || fn.FullName() == "context.TODO") {
 					good = true
 					detail = "Shutdown(" + fn.FullName() + "()) on the served server"
+				}
+			}
+			if !good {
+				// a context handed down as a parameter or captured variable: every in-repo origin must be
+				// context.Background()/TODO()
+				if fd, isDecl := u.Node.(*ast.FuncDecl); isDecl {
+					if obj, _ := info.Defs[fd.Name].(*types.Func); obj != nil {
+						if sf := p.SSA.FuncValue(obj); sf != nil {
+							if sc := callAt(sf, shutCall.Lparen); sc != nil && len(sc.Common().Args) == 2 {
+								os := ssaOriginsIP(p, sc.Common().Args[1], nil)
+								all := len(os) > 0
+								for _, o := range os {
+									c, isCall := o.V.(*ssa.Call)
+									if !isCall || c.Common().StaticCallee() == nil || (c.Common().StaticCallee().String() != "context.Background" && c.Common().StaticCallee().String() != "context.TODO") {
+										all = false
+										detail = "the shutdown context can be " + o.V.String() + ", not context.Background()/context.TODO(): a cancellable or expiring context cuts in-flight requests"
+									}
+								}
+								if all {
+									good = true
+									detail = fmt.Sprintf("Shutdown(ctx) where every in-repo origin of ctx (%d) is context.Background()/TODO()", len(os))
+								}
+							}
+						}
+					}
 				}
 			}
 		}
